@@ -14,7 +14,7 @@ def run(ctx):
     ctx.rule("R09.1", "every instance pushed into a placed layout has an absolute location: on each path from a relative-location test to the push, the location is re-assigned Place::Abs")
     ctx.rule("R09.2", "placements are resolved in the order computed by the dependency orderer (order independence rests on it), and the orderer's client pushes the relation target for every placeable kind (C17 R17.3)")
     from rules import C17 as c17
-    c17.run(ctx.sub("R09.2o", "the generic orderer and its placement client satisfy the orderer rules of C17"), only=lambda f: f.id.startswith("layout21utils::"), floors=False)
+    c17.run(ctx.sub("R09.2o", "the generic orderer and its placement client satisfy the orderer rules of C17"), only=lambda f: f.id.startswith("layout21utils::"), floors=False, clients=lambda g: g.id.startswith("layout21tetris::placer::"))
     ctx.rule("R09.4", "every match on Side splits {Left,Right}/{Top,Bottom} (axis) or {Left,Bottom}/{Top,Right} (near/far edge); BoundBox::side maps Left->p0.x, Right->p1.x, Bottom->p0.y, Top->p1.y")
     # ---- locate place_layout: function of placer taking &mut Layout and matching on Placeable
     cands = []
